@@ -126,9 +126,12 @@ ExpandTilde(env, s) ==
    ELSE IF HomeName \notin DOMAIN env THEN PErr("Var::NotPresent")
    ELSE IF s = <<"~">> THEN POk(env[HomeName]) ELSE POk(Mash(env[HomeName], SubSeq(s, 3, Len(s))))
 Expand(env, s) == LET t == ExpandTilde(env, s) IN IF t.o # "ok" THEN t ELSE ExpandVars(env, t.v)
-\* an expanded component that starts with "/" is ambiguous (textual vs join semantics): not judged
+\* an expanded component that starts with "/" - or a first component of a relative path that expands to
+\* nothing - is ambiguous (textual substitution vs component join semantics): not judged
 AmbiguousExpand(env, s) == LET t == ExpandTilde(env, s) IN t.o = "ok" /\ Count(t.v, "$") > 0 /\
-   \E i \in 1..Len(Comps(t.v)) : LET h == ExpandSeg(env, Comps(t.v)[i]) IN h.o = "ok" /\ h.v # <<>> /\ h.v[1] = Sep /\ (i > 1 \/ ~IsAbs(t.v))
+   \E i \in 1..Len(Comps(t.v)) : LET h == ExpandSeg(env, Comps(t.v)[i]) IN h.o = "ok" /\
+        \/ (h.v # <<>> /\ h.v[1] = Sep /\ (i > 1 \/ ~IsAbs(t.v)))
+        \/ (h.v = <<>> /\ i = 1 /\ ~IsAbs(t.v))
 
 (* ---- abs ---- *)
 RECURSIVE Walk(_, _)            \* cur: cwd segments; rest: cleaned relative segments
